@@ -30,6 +30,10 @@ CORPUS = ["", " ", "\t ", "from a | select {b, c}", "x = true.a", "case(", "let 
           "@{a}", "@ 1", "1 .. 2", "1.. 2", "1 ..2", "a..", "..a", "a\t..\tb", "a \n b", " a", "a ", " a ", "\ta\t", "a\\b", "\\", "a\n\\", "~", "~=", "?", "&", "&&", "||", "|", "&&&",
           "|||", "&&)", "||}", "let let", "letx", "let1", "let_", "_let", "_", "__a1", "a\u0301", "\u0301"]
 
+# sources that together contain every token kind / literal variant / operator (used by the transport self-test)
+TRANSPORT_EXTRA = ["a -> b => c == d != e >= f <= g ~= h && i || j ?? k // l ** m", "s\"x {a}\" f'y' r'z' @2020-01-01 @12:30 @2020-01-01T10:00:00Z 2days $p.q #c",
+                   "#!doc", "a\n #c\n #!d\n \\ b", "null true false 5 'str' \"\\u{e9}\"", " .. ", "a..b", "@ x", "let case\n", "`q r` 0x1f 0b1 0o7 9223372036854775807"]
+
 EDGE_CHARS = ["\ufeff", "\u00a0", "\u200b", "\r", "\x0b", "\x0c", "\u0085", "\u2028", "\u3000"]
 
 VALID_POINTS = [0x2028, 0x2029, 0x3000, 0x1F600, 0xFFFD, 0x10FFFF, 0xD7FF, 0xE000, 0x200B, 0xFEFF, 0x0301]
@@ -106,6 +110,105 @@ def coq_answer(ans):
     if "ok" not in ans:
         return "None"
     return "Some [" + "; ".join("(%s, (%d, %d))" % (coq_kind(t["kind"]), t["span"]["start"], t["span"]["end"]) for t in ans["ok"]) + "]"
+
+
+# ---- compact transport of a batch of cases into Coq: one primitive array of 63-bit integers
+#      (wire format and deserialiser: coq/Model/LexerDecode.v)
+
+KIND_TAG = {"NewLine": 0, "Ident": 1, "Keyword": 2, "Literal": 3, "Param": 4, "Range": 5, "Interpolation": 6, "Control": 7, "Annotate": 9,
+            "Comment": 10, "DocComment": 11, "LineWrap": 12, "Start": 13}
+LIT_TAG = {"Integer": 1, "Boolean": 3, "String": 4, "RawString": 5, "Date": 6, "Time": 7, "Timestamp": 8, "ValueAndUnit": 9}
+INT_MAX = (1 << 63) - 1
+
+
+def enc_str(out, s):
+    out.append(len(s))
+    out.extend(ord(c) for c in s)
+
+
+def enc_lit(out, l):
+    if l == "Null":
+        out.append(0)
+        return
+    (k, v), = l.items()
+    if k == "Float":
+        raise NeedsSlowPath()
+    if k not in LIT_TAG:
+        raise ValueError("unknown literal %r" % (l,))
+    out.append(LIT_TAG[k])
+    if k == "Integer":
+        if not (0 <= v <= INT_MAX):
+            raise ValueError("integer literal out of range: %r" % v)   # the lexer never produces negative literals
+        out.append(v)
+    elif k == "Boolean":
+        out.append(1 if v else 0)
+    elif k == "ValueAndUnit":
+        if not (0 <= v["n"] <= INT_MAX):
+            raise ValueError("value_and_unit out of range: %r" % (v,))
+        out.append(v["n"])
+        enc_str(out, v["unit"])
+    else:
+        enc_str(out, v)
+
+
+def enc_kind(out, k):
+    if isinstance(k, str):
+        if k in OPS:
+            out.append(8)
+            enc_str(out, k)
+        elif k in ("NewLine", "Start", "Annotate"):
+            out.append(KIND_TAG[k])
+        else:
+            raise ValueError("unknown unit kind %r" % k)
+        return
+    (t, v), = k.items()
+    if t not in KIND_TAG:
+        raise ValueError("unknown kind %r" % (k,))
+    out.append(KIND_TAG[t])
+    if t in ("Ident", "Keyword", "Param", "Comment", "DocComment"):
+        enc_str(out, v)
+    elif t == "Literal":
+        enc_lit(out, v)
+    elif t == "Range":
+        out.extend((1 if v["bind_left"] else 0, 1 if v["bind_right"] else 0))
+    elif t == "Interpolation":
+        out.append(ord(v[0]))
+        enc_str(out, v[1])
+    elif t == "Control":
+        out.append(ord(v))
+    elif t == "LineWrap":
+        out.append(len(v))
+        for c in v:
+            (ct, cv), = c.items()
+            if ct not in ("Comment", "DocComment"):
+                raise ValueError("unexpected kind inside LineWrap: %r" % (c,))
+            out.append(1 if ct == "DocComment" else 0)
+            enc_str(out, cv)
+    else:
+        raise ValueError("unknown kind %r" % (k,))
+
+
+def enc_case(s, ans):
+    """(source, harness `lex` answer) -> list of ints (one `case` of the wire format)"""
+    out = []
+    enc_str(out, s)
+    if "ok" not in ans:
+        out.append(0)
+        return out
+    out.append(1)
+    out.append(len(ans["ok"]))
+    for t in ans["ok"]:
+        enc_kind(out, t["kind"])
+        out.extend((t["span"]["start"], t["span"]["end"]))
+    return out
+
+
+def arr_literal(cases):
+    """list of encoded cases -> Coq primitive-array literal of the batch"""
+    flat = [len(cases)]
+    for c in cases:
+        flat.extend(c)
+    return "[| " + ";".join(map(str, flat)) + " | 0 |]"
 
 
 # ---- python view of both sides (slow path: floats, and printing the model's answer for a replay)
@@ -267,3 +370,65 @@ def exhaustive(alphabet, n):
 
 def key(s):
     return json.dumps(s)
+
+
+# ---- the directed family "every reserved / literal-like word x every left context x every right context"
+#      (a token's kind must be a function of its own text: C17's re-lex clause; anything that makes the kind depend on
+#      what precedes or follows the word shows up here with a concrete source)
+
+LEFT_CONTEXTS = {
+    "line-start": ["", " ", "\t", "\n", "\r\n", "a\n", "a\n  ", "a\r\n\t", "#c\n", "#!d\n", "a #c\n", "\n\n", "a\n\\ ", "\n\\", "a\n #c\n \\ ", "1\n", ")\n", "let\n"],
+    "after-token": ["a ", "a\t", "1 ", "1.5 ", "let ", "x = ", "from t | ", "from t\nfilter ", "'s' ", "\"d\" ", "r'w' ", "f\"{a}\" ", "$p ", "@2020-01-01 ", "@1 ", "a.b ",
+                    "f x ", "`q r` ", "2days ", "true ", "null ", ") ", "] ", "} "],
+    "glued-after-token": ["1", "2", "1.5", "'s'", "\"d\"", ")", "]", "}", "`q`", "$", "$p.", "@2020-01-01", "@"],
+    "brackets": ["(", "[", "{", "( ", "[ ", "{ ", "{a, ", "{a,", "(a ", "[1, ", "{a = ", "{a=", "f(", "f (", "select {", "select {name, ", "((", "{{", "[(", "{\n", "(\n  "],
+    "operators": ["=", "= ", "==", "== ", "!=", "!= ", ">=", ">= ", "<=", "<= ", "~=", "~= ", "&&", "&& ", "||", "|| ", "??", "?? ", "//", "// ", "**", "** ", "->", "-> ", "=>", "=> ",
+                  "!", "! ", "-", "- ", "+", "+ ", "*", "* ", "/", "/ ", "%", "% ", "<", "< ", ">", "> ", "|", "| ", ",", ", ", ":", ": ", ".", "a.", "1.", "..", ".. ", "a..", "a .. ",
+                  " ..", "a == ", "a && ", "a ?? ", "a + ", "-a + ", "x -> ", "?", "? "],
+}
+RIGHT_TERMINATORS = ["", " ", "\t", "\n", "\r\n", "\r", ",", ")", "]", "}", ">", "..", " ..", " = 1", " x", " (", " #c", "\n\\ a", ", a}", " | b", " == 1"]
+RIGHT_OTHERS = ["(", "()", ".", ".a", ":", ":a", "=", "=1", "==", "[", "[0]", "{", "|", "-", "-1", "+", "*", "/", "!", "<", ">=", "#c", "\\", "'", "''", "\"x\"", "`", "`a`", "1", "_", "_a", "a",
+                "$", "@", "?", "??", "&&", "||", "->", "=>", "\u00e9", ";", "~"]
+LEFT_SMALL = ["", "\n", "a ", "1 ", "(", "{a, ", "== ", "-", "| ", ".", "..", "a\n\\ ", "'s'", "} "]
+RIGHT_SMALL = ["", " ", "\n", ",", ")", "}", "..", "(", ".", "=", ":", " x"]
+PREFIX_WORDS = ["r", "s", "f", "e", "x", "T", "Z"]      # letters that are part of literal syntax (r'..' s".." f".." 1e5 0x.. dates)
+
+
+def context_words(info):
+    """reserved and literal-like words of the CURRENT tables (keywords, true/false/null, units, literal prefixes), their
+    capitalised / upper-case spellings and one plain identifier as the control"""
+    kws = list(info.get("keywords") or ["let", "into", "case", "prql", "type", "module", "internal", "func", "import", "enum"])
+    lits = [info.get("true_word", "true"), info.get("false_word", "false"), info.get("null_word", "null")]
+    units = list(info.get("units") or ["microseconds", "milliseconds", "seconds", "minutes", "hours", "days", "weeks", "months", "years"])
+    based = [p for p, *_ in (info.get("based") or [("0b",), ("0x",), ("0o",)])]
+    ws = kws + lits + units + PREFIX_WORDS + [p[1:] for p in based if len(p) > 1]
+    ws += [w.capitalize() for w in kws + lits] + [w.upper() for w in lits] + ["a", "from", "select"]
+    seen, out = set(), []
+    for w in ws:
+        if w and w not in seen:
+            seen.add(w)
+            out.append(w)
+    return out
+
+
+def word_contexts(words, full):
+    """yield (position class, source): full = the whole product; otherwise every (word, left) pair with the small right set and
+    every (word, right) pair with the small left set"""
+    rights = RIGHT_TERMINATORS + RIGHT_OTHERS
+    seen = set()
+    for cls, lefts in LEFT_CONTEXTS.items():
+        for l in lefts:
+            for w in words:
+                for r in (rights if full else RIGHT_SMALL):
+                    src = l + w + r
+                    if src not in seen:
+                        seen.add(src)
+                        yield cls, src
+    if not full:
+        for l in LEFT_SMALL:
+            for w in words:
+                for r in rights:
+                    src = l + w + r
+                    if src not in seen:
+                        seen.add(src)
+                        yield "right-context", src
